@@ -26,6 +26,25 @@ Theorem C08_decode_enc_min : forall t, decodable t = true -> decode (enc_min t) 
 Proof. exact decode_enc_min. Qed.
 Print Assumptions C08_decode_enc_min.
 
+(* The three decoding gaps are exact: any tree (no hypothesis) with one of them fails to decode ... *)
+Theorem C08_gap_decode_fails :
+  forall t, (gap_lineno t || gap_filepath t || gap_memberkey t)%bool = true -> exists e, decode (enc_min t) = Err e.
+Proof. exact gap_decode_fails. Qed.
+Print Assumptions C08_gap_decode_fails.
+
+(* ... so for trees the agents can build, `decodable` is exactly "the minimal document decodes". *)
+Theorem C08_decodable_iff :
+  forall t, rep t = true -> ((exists v, decode (enc_min t) = Ok v) <-> decodable t = true).
+Proof.
+  intros t Hrep. split.
+  - intros [v Hv]. unfold decodable. rewrite Hrep.
+    destruct (gap_lineno t || gap_filepath t || gap_memberkey t)%bool eqn:G.
+    + destruct (gap_decode_fails t G) as [e He]. congruence.
+    + apply orb_false_iff in G as [G G3]. apply orb_false_iff in G as [G1 G2]. rewrite G1, G2, G3. reflexivity.
+  - intro Hd. exists (PTree (reload t)). apply decode_enc_min. exact Hd.
+Qed.
+Print Assumptions C08_decodable_iff.
+
 (* ... and the reloaded tree serialises to the identical JSON unless a docstring is not a fixpoint of cleandoc. *)
 Theorem C08_roundtrip_min :
   forall t, wf t = true -> exists t', decode (enc_min t) = Ok (PTree t') /\ enc_min t' = enc_min t.
